@@ -102,7 +102,7 @@ def build_jobs(spec, tier, known, solver):
 
 # small standard-library packages always loaded from source when selective loading is on, so
 # that a change to /repo that starts calling one of their helpers stays executable
-COMMON_SRC = ["encoding/binary", "math/bits", "slices", "bytes", "errors", "unicode/utf8", "strconv"]
+COMMON_SRC = ["encoding/binary", "math/bits", "slices", "maps", "bytes", "errors", "unicode/utf8", "strconv"]
 
 
 def with_common(pk):
